@@ -9,6 +9,34 @@ EX = "exploration"
 
 # id -> (level, technique, level text, level note, design ref)
 CHECKS = {
+    "C01": (MC, "TLA+ transcriptions of the lexer loops (spec/LexLoop.tla, spec/SliceMap.tla) model-checked by TLC; contract state machine over tokens (spec/SourceMap.tla + spec/LexTrace.tla, one TLC state per token); spec->code replay of TLC-enumerated strings x all dialects, slice layouts and Jinja skeletons; code->spec trace validation of corpus, fixtures, mutants",
+            "The matcher loop is shown lossless/total under the stated per-dialect assumption; every slice layout <= 3 slices is replayed into the real segment mapper and the real output judged by the contract; every small string in every dialect, every Jinja skeleton <= 4 fragments, and recorded lexes of the fixture corpus, templated inputs and mutants are validated token by token by TLC.",
+            "Bounds: strings <= 2 (rotated dialects) / <= 1 (all dialects) quick, slice layouts <= 3 slices and rendered length <= 4, skeletons <= 4 fragments; thorough raises each by one. Zero-width template metas may sit inside the following token (weakest reading for tags that render nothing inside one lexed token). Trusted: lexrec projections, SliceMap concretiser.",
+            "DESIGN.md §5 C01"),
+    "C02": (MC, "TLA+ transcription of MatchResult.apply (spec/MatchTree.tla) model-checked and replayed into the real method; contract state machine over tree leaves vs tokens (spec/TreeTrace.tla Mode C02); TLC-enumerated word sequences and Jinja skeletons parsed for real; trace validation of recorded parses",
+            "Every well-formed match over 3 tokens is replayed into the real apply; recorded parses of fixtures of every dialect, templated inputs, mutants (unparsable paths) and all word sequences <= 3 are validated leaf by leaf: same text, same templated and source span, same order, unparsable nodes iff PRS.",
+            "Bounds as stated; the 28 grammars are not transcribed — decided on the explored inputs. Trusted: lexrec projections (leaf rows, interned raw ids).",
+            "DESIGN.md §5 C02"),
+    "C03": (MC, "contract state machine over recorded parse trees (spec/TreeTrace.tla Mode C03): running indent balance per leaf, span-is-hull / child order / non-code ends per node; TLC-enumerated word sequences and skeletons; trace validation",
+            "Every node of every recorded tree (fixtures of all dialects, templated inputs, mutants, all word sequences <= 3 in several dialects) is checked by TLC for span = hull of its leaves, ordered children, no whitespace/comment ends, and the leaf sequence for never-negative, finally-zero indent balance.",
+            "Decided on explored inputs. Zero-width children may sit inside the next child's span (tags rendering nothing inside a token). Known findings: partial matches keep an Indent (class), two grammars lacking Dedents.",
+            "DESIGN.md §5 C03"),
+    "C05": (EX, "pipeline contract (spec/Pipeline.tla: Lint is enabled only without internal rule errors) + trace validation (spec/PipelineTrace.tla) of recorded lint/fix runs over rules x options x inputs",
+            "Recorded lint and fix runs over fixtures and mutants (incl. partly unparsable files) under all rules, each rule group and each rule alone with every non-default option value from the rules' own config_info; no run may report an 'Unexpected exception' violation.",
+            "Exploration: the decision power is the explored input set. Trusted: piperec wrappers; the 'Unexpected exception' prefix written by BaseRule.crawl.",
+            "DESIGN.md §5 C05"),
+    "C06": (MC, "TLC-enumerated grammar terms (spec/GrammarGen.tla) built with the real combinators and matched in four optimisation modes; contract spec/ParseDetTrace.tla (result is a function of text, dialect, config); four-way differential and process histories on real files",
+            "Every grammar term to depth 2 x every token string to the bound is matched with the parse cache on/off and pruning on/off; fixtures of every dialect and mutants are parsed in the same four modes plus a repeat; files are parsed in two orders in one process and alone in fresh processes; TLC requires identical results.",
+            "Modes are switched at ParseContext.check_parse_cache and match_algorithms.prune_options from the harness; next_match's simple maps cannot be disabled from outside. Known finding: pruning vs GREEDY-mode Sequence alternatives (engine level).",
+            "DESIGN.md §5 C06"),
+    "C07": (MC, "TLA+ transcription of _rectify_templated_slices vs its contract (spec/Rectify.tla) model-checked and replayed; source-map contract (spec/SourceMap.tla) evaluated by TLC (spec/LexTrace.tla) on every variant of TLC-enumerated skeletons, fixtures, rule cases, generated templates, python/placeholder inputs",
+            "The repaired rectification algorithm satisfies its contract for all cases with 4 raw slices, and the real function agrees on each; every rendered variant of every explored template satisfies RawTiles, RawTextEq, TmplTiles, SrcInFile, LiteralEq and A3.",
+            "Bounds: 4 (quick) / 5 raw slices, <= 2 modified tags, loop visited <= 2 times; skeletons <= 4 fragments. Trusted: lexrec.template_event projection.",
+            "DESIGN.md §5 C07"),
+    "C23": (EX, "position contract spec/PosTrace.tla (offset<->line/col relation of spec/LineCol.tla, shown equal to the definition by LineColEquiv) evaluated by TLC on recorded lint runs and on all CLI output formats",
+            "For every violation of every recorded lint run: line/col in the file, serialised offsets agree with line/col (start, end and each fix edit), the dict agrees with the reported position, violations anchored on source code point at that code's first character and text; all five machine-readable formats carry the same numbers as the API.",
+            "Exploration over fixtures of all dialects, mutants, templated inputs and variants. The anchor clause applies in lint mode to non-meta, non-empty, literal anchors only. Known finding: line-only violations report column 0.",
+            "DESIGN.md §5 C23"),
     "C20": (MC, "TLA+ contract + transcription of IgnoreMask (spec/Noqa.tla), TLC exhaustive; spec->code replay of every enumerated case; code->spec trace validation of generated files (NoqaTrace)",
             "TLC shows the transcribed masking algorithm refines the noqa contract for every directive list/violation set in scope, every such case is replayed into the real IgnoreMask, and recorded lint runs of generated files (all reference forms, tree and source-fallback masks, disable_noqa) are validated against the same contract.",
             "Scope: 3 lines, <=2 (quick) / <=3 (thorough) directives, <=2 violations, codes {A,B,PRS}. Trusted: object builders, file concretiser, code mapping LT01/CP01/PRS. `used` of enable directives and of several directives hiding the same violation is left unconstrained (ambiguous in the statement).",
